@@ -41,7 +41,8 @@ MODELLED_NOT_VERIFIED = [
     "rootedge); attribute quoting (_protect_attr / quoteattr) and the parser's reading of a quoted value are modelled and proved (ops attr-quote, attr-parse, "
     "theorem label_attr_roundtrip; hexadecimal references and XML-illegal control characters are outside the model); the rest of the XML text and "
     "xml.etree parsing are trusted: the harness reads the library's text with xml.etree directly and hands the element structure over; documents a writer does not produce (duplicate ids, re-parented nodes, several "
-    "parentless nodes) are refused by the model; nxRead(nxWrite(trees)) = trees is compared on every case, not proved",
+    "parentless nodes) are refused by the model; the tree construction on written elements is proved (nexml_tree_build_roundtrip_partial), the "
+    "whole nxRead(nxWrite(trees)) = trees (guards of nxReadTree, list level) is compared on every case, not proved",
     "C02: float <-> text is Python's repr/float (lengths are opaque strings in the model); NTAX is Lean's Nat.repr against Python's str(int) (token "
     "comparison); case folding is a parameter of the model (theorems hold for every folding); the driver is handed str.lower() of the characters that "
     "occur (one-character images only: the generators never emit characters such as U+0130 or a final sigma); keyword matching upper-cases ASCII only; "
@@ -63,6 +64,10 @@ EXPLANATION = ("Theorems (Props/C02.lean, all about the definitions drv_c02 runs
                "in by the caller - and the trees; default_translate_table: the default table (token = accession index + 1, member order) has plain-word "
                "tokens and lists the namespace in member order; nexml_write_shape_partial: the NeXML writer model's id "
                "bookkeeping (one node and one edge element per node, counter arithmetic, seed first with root=\"true\" iff rooted, rootedge first) - "
+               "nexml_tree_build_roundtrip_partial: for EVERY tree, the reader's tree construction nxBuild run from the seed on the node and edge "
+               "elements the writer model emits returns the written tree (topology, child order, taxa, node labels, edge length texts) - partial: "
+               "the guards nxReadTree evaluates first (no id twice, one parentless node = the seed, root flag / rootedge agree) and the list level "
+               "are not proved - "
                "nexml_otus_roundtrip: the otus block the NeXML writer model emits is read back by the reader model as the same namespace, same "
                "order (fresh or the caller's), so any document nxRead accepts has that namespace - "
                "label_attr_roundtrip: for EVERY string, the XML parser model reads the value quoteattr writes (entities for & < >, character "
